@@ -290,7 +290,9 @@ def run(ctx: Ctx, env):
     for t in A.node_tmpls.get(("Call", None)) or []:
         if t.path.outcome == "return" and t.is_string:
             txt = t.text()
-            ctx.check("(" in txt and txt.endswith(")") and "joined by ', '" in txt or "joined by ','" in txt, "R5.delimiters", "Call",
+            no_args = any(k.startswith("empty(") and "args" in k and v is True for k, v in t.path.conds)
+            ctx.check(("(" in txt and txt.endswith(")") and "joined by ', '" in txt or "joined by ','" in txt) or (no_args and txt.endswith("()")),
+                      "R5.delimiters", "Call",
                       f"call printed as `{txt}`", t.where)
     ctx.trust("the parser's decision relation is the LALR table of Core E (C05 checks it against the specification)")
 
